@@ -36,6 +36,13 @@ def run(rep, ctx):
     rep.run_rule("C08.R3", "__lt__ compares self's value with `other` converted into self's unit, using <", r3_orientation, ctx)
     rep.run_rule("C08.R4", "__hash__ defined next to __eq__ reads a subset of the fields __eq__ reads", r4_hash, ctx)
     rep.run_rule("C08.R5", "ordering across quantity types must-raise TypeError first; all order operators derive from __lt__", r5_type_error, ctx)
+    from . import c18
+    from ..report import borrow
+    rep.rule("C08.R6", "FractionScalar's comparands are FractionValues: their four order dunders compare float amounts (shared with C18.R1)")
+    try:
+        borrow(rep, c18.r1_fraction_value, ctx, "C18.R1", "C08.R6", keep=lambda o: any(d in o.key for d in ("__lt__", "__le__", "__gt__", "__ge__", "__float__")))
+    except AnalysisError as e:
+        rep.error("C08.R6", str(e))
     rep.not_decided += [
         "reflexivity and symmetry of == beyond the guard forms (exact-type or isinstance guards with Python's subclass-first dispatch)",
         "that the numeric comparison itself orders by physical amount (follows from R3 plus C01's strictly increasing conversions)",
